@@ -1004,6 +1004,11 @@ def rest_api(rng, name, numeric=False, nmethods=10):
         for j, t in enumerate(rng.sample(REQ_SCALARS, nreq)):
             q.field(f"req_{t}", t, required=True)
             tags.add("required:" + t)
+        if rng.random() < 0.6:
+            # REQUIRED and proto3 `optional` at once (the Compute shape): still required, still re-sent when left unset
+            for t in rng.sample(["int32", "string", "bool", "uint64"], rng.randint(1, 2)):
+                q.field(f"oreq_{t}", t, required=True, optional=True)
+                tags.add("required-optional:" + t)
         for j, t in enumerate(rng.sample(REQ_SCALARS, rng.randint(1, 5))):
             q.field(f"q_{t}", t)
         if rng.random() < 0.7:
@@ -2238,7 +2243,7 @@ def selective_api(rng, name):
     s2.rpc("Grow", P + ".GrowRequest", P + ".Tree", http={"post": "/v1/grow"}, body="*")
     # a resource message declared in a target file that comes after the service file in the request and is not imported by it
     # (references are strings): reached only through the resource_reference of a void RPC's request
-    fl = File(f"{dirp}/zz_vaults.proto", pkg, deps=[x for x in STD_DEPS if "resource" in x or "field_behavior" in x] + [fe.pb.name])
+    fl = File(f"{dirp}/zz_vaults.proto", pkg, deps=list(STD_DEPS) + [fe.pb.name])
     api.add(fl)
     vd = fl.message("VaultDetail")
     vd.field("capacity", "int32")
@@ -2251,6 +2256,11 @@ def selective_api(rng, name):
     q = f.message("DeleteVaultRequest")
     q.field("name", "string", ref=f"{name}.googleapis.com/Vault")
     s1.rpc("DeleteVault", P + ".DeleteVaultRequest", ".google.protobuf.Empty", http={"delete": "/v1/{name=vaults/*}"}, sigs=["name"])
+    # a service that lives alone in that other file: with keep-as-internal, a file without any listed RPC still has to be rewritten
+    sv = fl.service("Vaults", host=f"{name}.googleapis.com")
+    q = fl.message("SealVaultRequest")
+    q.field("name", "string")
+    sv.rpc("SealVault", P + ".SealVaultRequest", P + ".Vault", http={"post": "/v1/{name=vaults/*}:seal"}, body="*")
     # a service whose name starts with another service's name, sharing an RPC name with it
     s3 = f.service("LibraryAdmin", host=f"{name}.googleapis.com")
     s3.rpc("GetShelf", P + ".GetShelfRequest", P + ".Shelf", http={"get": "/v1/admin/{name=shelves/*}"}, sigs=["name"])
